@@ -350,8 +350,11 @@ def gen_experiment(rng, faults=True, max_samples=5, max_beads=2, small=False, pl
                                     layout_variant=rng.choice([None, None, None, 'time_first', 'reversed', 'swap_fl']),
                                     timestep=rng.choice(['0.01'] * 9 + ['0', '0.0']),
                                     negscatter=bool(dt == 'F' and rng.chance(0.3)))
-        twins = [n_ for n_, d_ in files.items() if d_['kind'] == 'cells' and d_.get('datatype') == 'F' and d_['inst'] is inst
-                 and n_ != row['File Path'] and not d_.get('nudge')]
+        # (only files of earlier HEALTHY rows: the file of a too-few-events row must not be replicated under a healthy row)
+        twins = [x['File Path'] for x in exp['samples'] if x['fault'] is None and x['File Path'] in files
+                 and x['File Path'] != row['File Path'] and files[x['File Path']]['kind'] == 'cells'
+                 and files[x['File Path']].get('datatype') == 'F' and files[x['File Path']]['inst'] is inst
+                 and not files[x['File Path']].get('nudge')]
         if dt == 'F' and f is None and twins and rng.chance(0.6):
             tname = rng.choice(twins)
             src = files[tname]
